@@ -488,6 +488,9 @@ pub fn pool() -> Vec<T> {
     v.push(sip("sip_nwen_unknown", A::new(false).s(b"NWEN").u32v(98)));
     v.push(sip("sip_nwch_oos", A::new(false).s(b"NWCH").u32v(7).u16v(5).raw(&seg[..10])));
     v.push(sip("sip_nwst_zero_size", A::new(false).s(b"NWST").u32v(8).raw(&ip12).u32v(0).u16v(2).u16v(0)));
+    // chunks / end for the announcement with chunk size 0 (id 8)
+    v.push(sip("sip_nwch_for_zero_size", A::new(false).s(b"NWCH").u32v(8).u16v(0).raw(&seg[..10])));
+    v.push(sip("sip_nwen_for_zero_size", A::new(false).s(b"NWEN").u32v(8)));
     v.push(sip("sip_nwst_bad_hdr", A::new(false).s(b"NWST").u32v(9).raw(&ip12[..3]).u32v(0).u16v(1).u16v(16)));
     v.push(t("sip_nonverbose", b"SIP1", Some((NV_NW_IPC, 2, b"SIPA", tc)), ip12.iter().copied().chain(someip(64098, 1000, 0, 0, &[42])).collect()));
     // ---- CAN: nw trace can, ctid TC, frame id + data (adlt's own .asc importer emits them non-verbose, apid CAN)
@@ -1683,15 +1686,16 @@ impl Prop for C19 {
         let mut orders: Vec<(String, Vec<usize>)> = vec![
             ("forward".into(), (0..n).collect()),
             ("reversed".into(), (0..n).rev().collect()),
-            ("stride7".into(), (0..n).map(|i| (i * 7) % n).collect()),
         ];
-        assert!(n % 7 != 0);
+        // a permutation by a prime stride that does not divide the pool size
+        let stride = [7usize, 11, 13, 17].into_iter().find(|p| n % p != 0).expect("stride");
+        orders.push((format!("stride{stride}"), (0..n).map(|i| (i * stride) % n).collect()));
         if thorough {
             for r in 1..n {
                 orders.push((format!("rot{r}"), (0..n).map(|i| (i + r) % n).collect()));
             }
         }
-        ctx.begin_family("chain_pool_stream", &format!("{} orders (forward, reversed, stride 7{}) of the {}-message pool x 326 ordered plugin subsets", orders.len(), if thorough { ", every rotation" } else { "" }, n));
+        ctx.begin_family("chain_pool_stream", &format!("{} orders (forward, reversed, prime stride{}) of the {}-message pool x 326 ordered plugin subsets", orders.len(), if thorough { ", every rotation" } else { "" }, n));
         for (_name, ord) in &orders {
             for ch in &chains {
                 if ctx.mine() {
